@@ -519,6 +519,11 @@ impl MediaStreamTrack for SampleStreamTrack {
 
     async fn recv(&self) -> MediaResult<MediaSample> {
         loop {
+            // Created before the checks below: a `notify_waiters()` issued after this
+            // point (last source dropped, `stop()`) completes this future even though it
+            // has not been polled yet, so that wake-up cannot be lost between a check
+            // and the `await`.
+            let notified = self.notify.notified();
             #[cfg(rustrtc_verif)]
             crate::verif_sched::yield_point(crate::verif_sched::RECV_LOAD_ENDED);
             if self.ended.load(Ordering::SeqCst) {
@@ -551,7 +556,7 @@ impl MediaStreamTrack for SampleStreamTrack {
 
             #[cfg(rustrtc_verif)]
             crate::verif_sched::yield_point(crate::verif_sched::RECV_NOTIFIED);
-            self.notify.notified().await;
+            notified.await;
             #[cfg(rustrtc_verif)]
             crate::verif_sched::yield_point(crate::verif_sched::RECV_LOAD_CLOSED2);
             if self.source_closed.load(Ordering::Acquire) && self.queue.is_empty() {
